@@ -5,15 +5,17 @@ VERUS_UNITS = {
     "V-range": "v_range",
     "V-cursors": "v_cursors",
     "V-adaptors": "v_adaptors",
+    "V-lexer": "v_lexer",
 }
 
 PROPERTIES = {
     "C01": {"verus": ["V-frame", "V-range"], "kani": ["K-number"]},
     "C05": {"verus": ["V-frame"], "kani": ["K-emit"]},
-    "C06": {"verus": ["V-frame", "V-vmproto", "V-range"], "kani": ["K-number", "K-emit", "K-strslice"]},
+    "C06": {"verus": ["V-frame", "V-vmproto", "V-range", "V-lexer", "V-cursors", "V-adaptors"], "kani": ["K-number", "K-emit", "K-strslice"]},
     "C04": {"verus": ["V-vmproto"], "kani": []},
     "C07": {"verus": ["V-vmproto"], "kani": []},
     "C08": {"verus": ["V-vmproto"], "kani": []},
+    "C09": {"verus": ["V-lexer"], "kani": []},
     "C12": {"verus": ["V-vmproto"], "kani": []},
     "C13": {"verus": ["V-range", "V-cursors", "V-adaptors"], "kani": []},
     "C14": {"verus": [], "kani": ["K-number", "K-strslice"]},
